@@ -331,6 +331,11 @@ def post_transform(args, kw, res, exc, snap):
     p.update(kw)
     src, dst, axy = p["from_crs"], p["to_crs"], p.get("always_xy", True)
     if exc is not None:
+        try:
+            _oracle_transformer(src.to_wkt(), dst.to_wkt(), axy)
+        except Exception as oe:
+            if type(oe) is type(exc):
+                return _mon.skip("transformer-cache", "pyproj itself cannot build this transformer")
         return _mon.fail("transformer-cache", {"src": src.to_string()[:40], "dst": dst.to_string()[:40], "exc": exc}, key="transformer-raises")
     ok_meta = res.source_crs.equals(src) and res.target_crs.equals(dst)
     fresh = _oracle_transformer(src.to_wkt(), dst.to_wkt(), axy)
